@@ -36,6 +36,7 @@ def step_job(interp, c, case, rules=False):
     dt = c.real("dt", lo=0, lo_strict=True)
     c.assume(t0 <= grid[0])
     sim = AbsSim(c, S, R, x0, U, D, t0, dt)
+    x0_orig, p_orig = list(x0), list(sim.params)
     if rules:
         sim.havoc_rules()          # rules are an arbitrary map of the state
     simulator = sim_mod.ns["SSASimulator"]()
@@ -142,6 +143,8 @@ def step_job(interp, c, case, rules=False):
             "step: waiting time -ln(u1)/Lambda capped at the next grid time; reaction j chosen iff "
             "sum_{i<j} a_i < u2*Lambda <= sum_{i<=j} a_i; rows T[k] <= t' record the pre-update state; "
             "x' = x + S[:,j]", "ssa step relation")
+    _report(c, all(a is b for a, b in zip(sim.x0, x0_orig)) and all(a is b for a, b in zip(sim.params, p_orig)),
+            "model-untouched: the interface's initial-state and parameter arrays are never written by the loop", "ssa loop writes the model")
     inv = [ci_new <= T]
     if ci_new < T:
         inv.append(L["current_time"] <= grid[ci_new])
